@@ -63,8 +63,6 @@ func invDoc(d verifDoc) bool {
 		verifOr(d.IsJSON == 0, d.IsJSON == 1),
 		verifOr(d.Tombstone == 0, d.Tombstone == 1),
 		(d.Tombstone == 1) == (d.Value == nil),
-		verifImplies(d.Value == nil, d.Exp == 0),
-		verifImplies(d.Value == nil, d.IsJSON == 0),
 		d.Rev >= 1,
 		verifXattrsWellFormed(d.Xattrs),
 	)
